@@ -7,7 +7,15 @@ Open Scope float_scope.
    The loop is instantiated with "recorded configurations": a configuration is the pair of the
    measure the implementation's Chi2Calculator returned for it and its ordinal (0 = initial array,
    k = the array proposed at step k); the proposal function hands out the recorded proposal of the
-   step, provided the generator that produced it is the one belonging to the kind drawn. *)
+   step, provided the generator that produced it is the one belonging to the kind drawn.
+
+   Degenerate geometries (collinear / coincident neighbours in the single-atom move: numpy divides 0/0 without raising):
+   the trial array is nan and so is its recorded measure.  No special case is needed here, because the proposals are
+   replayed, not recomputed: with e1 = nan the model's accept_metropolis takes `nan <=? e0 = false`, `nan =? 0 = false`,
+   consumes the DRand and returns `u <=? acceptance * (e0 / nan) = false` - rejected, one uniform draw, counter + 1,
+   exactly what the unchanged code does.  An implementation that accepts such a trial, or judges it without a draw,
+   disagrees (the model then finds no DRand / a different decision).  (CheckC06.v, which recomputes the proposals, needs
+   its `run_resume` for the same situation.) *)
 Definition rconf : Type := (float * Z)%type.
 Definition rprop : Type := (nat * rconf)%type.   (* generator tag: 0 normal(0,w,3), 1 uniform+normal, 2 move_mol_atom *)
 Definition r_chi2 (c : rconf) : float := fst c.
